@@ -769,6 +769,17 @@ def op_write(w, op, mods):
                                        "outcome": "ok" if err is None else "rejected"},
                      "%s.write (%s)%s modified the caller's table (%s): %s"
                      % (h["kind"], "text" if delim else "binary", "" if err is None else " raised %r and" % (err,), guard["kind"], bad))
+    if tab.shape[0] == 0:
+        # an EMPTY chunk (an empty selection while a catalogue is appended in pieces): outside the quantifier
+        # ("chunk sizes >= 1"), so accepting or rejecting it is free -- but the file and the handle's later
+        # behaviour must not change
+        run.fault("empty_chunk_written_through_a_handle")
+        h["last"] = "ok" if err is None else "rejected"
+        run.event(op.get("c", 0), "write_empty", p, "ok" if err is None else "rejected")
+        if err is None and m["dtype"] is None:
+            # a brand-new file that received only an empty chunk: nothing judged can be said about it
+            w.files[p] = None
+        return
     if ok_expected:
         if err is not None:
             h["last"] = "error"
